@@ -142,7 +142,7 @@ class Module:
         self.name = os.path.relpath(path, PKG)[:-3].replace(os.sep, '.')
         with open(path, encoding='utf-8') as f:
             self.text = f.read()
-        self.tree = unwalrus(ast.parse(self.text, filename=path))
+        self.tree = unalias_callees(unwalrus(ast.parse(self.text, filename=path)))
         set_parents(self.tree)
         self.funcs = {}      # qual -> Func
         self.classes = {}    # name -> ClassDef
@@ -561,6 +561,60 @@ def unwalrus(tree):
             return node
     t = T()
     tree.body = t._block(tree.body)
+    ast.fix_missing_locations(tree)
+    return tree
+
+
+def unalias_callees(tree):
+    """`match = pattern.match` / `append = items.append` / `read_header = ArMember.from_file` in front of a loop, and `match(line)` inside:
+    a local that is bound ONCE, at the top level of a function, to an attribute of something that is not re-bound afterwards, and that is
+    only ever CALLED, is replaced by what it stands for (the look-up it saves gives the same function each time).  Every rule sees the
+    plain call."""
+    from . import normalize
+
+    def only_called(fn, name):
+        uses = [n for n in ast.walk(fn) if isinstance(n, ast.Name) and n.id == name and isinstance(n.ctx, ast.Load)]
+        callees = {id(c.func) for c in ast.walk(fn) if isinstance(c, ast.Call)}
+        return bool(uses) and all(id(u) in callees for u in uses)
+
+    def chain(v):
+        while isinstance(v, ast.Attribute):
+            v = v.value
+        if isinstance(v, ast.Call) and isinstance(v.func, ast.Name) and v.func.id == 'super' and all(isinstance(a, ast.Name) for a in v.args) and not v.keywords:
+            return True          # super().method / super(Class, self).method
+        return isinstance(v, ast.Name)
+
+    def visit(body):
+        for i, st in enumerate(body):
+            if isinstance(st, ast.ClassDef):
+                visit(st.body)
+            elif isinstance(st, (ast.FunctionDef,)):
+                inner = []          # (also inside a with / try / if block of the function, not inside a loop or a nested function)
+                todo = list(st.body)
+                while todo:
+                    t = todo.pop()
+                    inner.append(t)
+                    if isinstance(t, (ast.With, ast.Try, ast.If)):
+                        for fld in ('body', 'orelse', 'finalbody'):
+                            todo.extend(getattr(t, fld, []) or [])
+                        for h in getattr(t, 'handlers', []) or []:
+                            todo.extend(h.body)
+                cands = [t.targets[0].id for t in inner if isinstance(t, ast.Assign) and len(t.targets) == 1 and isinstance(t.targets[0], ast.Name)
+                         and isinstance(t.value, ast.Attribute) and chain(t.value)]
+                cands = [c for c in cands if only_called(st, c)]
+                if cands and not any(isinstance(n, (ast.Global, ast.Nonlocal)) for n in ast.walk(st)):
+                    try:
+                        new, done = normalize.propagate_aliases(st, select=lambda name, v: name in cands and isinstance(v, ast.Attribute), allow_calls=('len', 'super'))
+                    except Exception:      # pylint: disable=broad-except
+                        new, done = st, {}
+                    if done:
+                        body[i] = new
+            elif isinstance(st, (ast.If, ast.Try)):
+                for fld in ('body', 'orelse', 'finalbody'):
+                    visit(getattr(st, fld, []) or [])
+                for h in getattr(st, 'handlers', []) or []:
+                    visit(h.body)
+    visit(tree.body)
     ast.fix_missing_locations(tree)
     return tree
 
